@@ -19,6 +19,25 @@ CHECKS = {
    text="Overlap integral compared with the Gaussian closed form, identity, exchange symmetry and range for widths from 1 fs to 10 s, offsets and delays up to 40 widths.",
    note="only the Gaussian temporal profile exists in the library; closed form assumes it"),
 }
+
+MACHINE_NOTE = "trusts the harness's own reference simulator (numpy/scipy; two independent operator embeddings cross-checked at start-up) and the reconstruction of the joint density matrix from object attributes; states are seeded into blocks by assigning correctly shaped arrays after the layout was built through public calls; worlds <= 3 envelopes + 2 custom states, Fock cut-offs 2-4 before the call"
+def machine(design, text, technique):
+    return dict(category="exploration", design_ref=design, technique=technique, text=text, note=MACHINE_NOTE)
+CHECKS.update({
+ "C01": machine("DESIGN.md 3/C01", "Generated worlds x storage layouts x levels x entry points x states (entangled, mixed, amplitude-cancelling) x all single-subsystem operation types; each call compared step-wise with (OxI)rho(OxI)^+ from the reference model. Sampling over a large finite cell grid times a continuum; no exhaustiveness claim.",
+   "property-based testing (Hypothesis program generation): differential against an independent dense reference simulator, per step"),
+ "C02": machine("DESIGN.md 3/C02", "Generated programs of structural calls (combine/reorder/expand/contract/merge) and trace_out at three entry points; invariant 'joint state unchanged' after every structural call and differential check of the returned reduced state against the reference partial trace.",
+   "property-based testing (Hypothesis program generation): state-invariance oracle + differential partial trace"),
+ "C03": machine("DESIGN.md 3/C03", "Generated composite operations (CX, CZ, SWAP, CSWAP, beam splitter, typed user expressions with all-different factors) on every ordered operand tuple over operands spread across own states, envelopes and product spaces; differential against the reference embedding with factor k on operand k.",
+   "property-based testing (Hypothesis program generation): differential against reference operator embedding in operand order"),
+ "C04": machine("DESIGN.md 3/C04", "Sampler interception: every probability vector handed to jax.random.choice is recorded and a generated script forces a branch; the probability of the path must equal the Born probability of the reported outcome dictionary for generated entangled/mixed states at every layout, entry point and flag combination.",
+   "property-based testing (Hypothesis) with intercepted sampler and forced outcome branches: path probability vs Born rule of the reference model"),
+ "C05": machine("DESIGN.md 3/C05", "For each forced outcome branch the post-measurement joint state, the outcome dictionary (by object identity), measured flags and the partition are compared with the reference projection; generated continuations run on the survivors under their own oracles.",
+   "property-based testing (Hypothesis program generation) with forced measurement branches: differential collapse + retirement predicates"),
+ "C06": machine("DESIGN.md 3/C06", "Dilation-generated CPTP sets (1-4 operators) on 1-2 targets through all entry points and layouts; differential against sum K rho K^+, unit trace, and the rule that a vector/label report requires a pure result.",
+   "property-based testing (Hypothesis program generation): differential against the reference channel"),
+})
+
 NOT_YET = {}
 
 def main():
